@@ -101,7 +101,7 @@ def main():
         'notes': ('See DESIGN.md (section 9 = as built). KNOWN_FINDINGS.txt: eight defects found by the checks and repaired in /repo (fixed: lines, F1-F8) '
                   'and three deviations that are recorded, not repaired (known: lines): K1/K2 for C09 (projector-splitting integrator) and K3 for '
                   'C14/C15 (absolute Krylov breakdown threshold); C09, C14 and C15 print KNOWN-FINDING lines and exit 0. '
-                  '/verif/seeded/ holds 178 property-breaking changes written by independent sub-agents (eight waves), all detected; '
+                  '/verif/seeded/ holds 193 property-breaking changes written by independent sub-agents (nine waves; plus one change kept for the record that does not violate its property as stated), all detected; '
                   'tools/seeded_recheck.py re-runs them against the current checks.'),
     }
     with open(os.path.join(HERE, 'MANIFEST.json'), 'w') as fh:
